@@ -120,6 +120,8 @@ class Profile:
         self.p_modal = rng.choice((0.15, 0.3, 0.45)) if modal else 0.0
         self.p_quant = rng.choice((0.15, 0.3)) if quant else 0.0
         self.p_atom_pred = rng.choice((0.3, 0.6, 1.0)) if self.preds else 0.0
+        # subscripts: mostly 0; some runs use subscripted symbols (incl. >= 10) throughout
+        self.subs = rng.choice(((0,), (0,), (0,), (0, 1), (0, 0, 12), (0, 2, 10)))
 
 def gen_sentence(rng, prof, depth=None, bound=()):
     if depth is None:
@@ -151,15 +153,15 @@ def gen_leaf(rng, prof, bound=()):
         def param():
             if bound and rng.random() < 0.7:
                 return rng.choice(bound)
-            return ('c', rng.choice(prof.consts), 0)
+            return ('c', rng.choice(prof.consts), rng.choice(prof.subs))
         if prof.identity and rng.random() < 0.3:
             if rng.random() < 0.8:
                 return ('P', IDENTITY, (param(), param()))
             return ('P', EXISTENCE, (param(),))
         i = rng.randrange(prof.npreds)
         ar = prof.arities[i]
-        return ('P', (i, 0, ar), tuple(param() for _ in range(ar)))
-    return ('A', rng.randrange(prof.natoms), 0)
+        return ('P', (i, prof.subs[i % len(prof.subs)], ar), tuple(param() for _ in range(ar)))
+    return ('A', rng.randrange(prof.natoms), rng.choice(prof.subs))
 
 def gen_argument(rng, prof, nprem=None):
     if nprem is None:
